@@ -190,3 +190,200 @@ func vfReuse(max1, max2 int) {
 	}
 	vfReach("end")
 }
+
+// ---- reference for UAX #29 word boundaries (WB3..WB16, WB999) ----
+//
+// Word rules read only: the word-break class, the code points CR / LF / ZWJ, and Extended_Pictographic.
+// The text positions of this harness therefore range over one representative per combination of those
+// (selected from repgen's representatives on every run), which keeps sequences of 3..4 runes affordable;
+// that the word attributes do not depend on the other classes is what H-C06-reuse/H-C06-grapheme style runs
+// over the full domain do not contradict, and is stated as an assumption of this harness.
+
+type vfWordKey struct {
+	class               *ucdTable
+	pic, cr, lf, zwj bool
+}
+
+func vfWordReps() []rune {
+	seen := map[vfWordKey]bool{}
+	var out []rune
+	for _, r := range vfReps {
+		k := vfWordKey{ucd.LookupWordBreakClass(r), vfIsPic(r), r == 0x0D, r == 0x0A, r == 0x200D}
+		if !seen[k] {
+			seen[k] = true
+			out = append(out, r)
+		}
+	}
+	return out
+}
+
+func vfWordRef(text []rune) []bool {
+	n := len(text)
+	isC := func(i int, c *ucdTable) bool { return ucd.LookupWordBreakClass(text[i]) == c }
+	any := func(i int, cs ...*ucdTable) bool {
+		r := false
+		for _, c := range cs {
+			r = vfOr(r, isC(i, c))
+		}
+		return r
+	}
+	ahl := []*ucdTable{ucd.WordBreakALetter, ucd.WordBreakHebrew_Letter}
+	mid := []*ucdTable{ucd.WordBreakMidLetter, ucd.WordBreakMidNumLet, ucd.WordBreakSingle_Quote}
+	midN := []*ucdTable{ucd.WordBreakMidNum, ucd.WordBreakMidNumLet, ucd.WordBreakSingle_Quote}
+	heb, num, kat, enl := ucd.WordBreakHebrew_Letter, ucd.WordBreakNumeric, ucd.WordBreakKatakana, ucd.WordBreakExtendNumLet
+	sq, dq, ri := ucd.WordBreakSingle_Quote, ucd.WordBreakDouble_Quote, ucd.WordBreakRegional_Indicator
+	lettersNumKat := []*ucdTable{ucd.WordBreakALetter, heb, num, kat}
+
+	nl := make([]bool, n)
+	skip := make([]bool, n)
+	for i := range text {
+		nl[i] = isC(i, ucd.WordBreakNewlineCRLF)
+		skip[i] = isC(i, ucd.WordBreakExtendFormat)
+	}
+	// WB4: a skip character is REMOVED unless it stands at the start of text or after CR/LF/Newline
+	removed := make([]bool, n)
+	for i := 1; i < n; i++ {
+		removed[i] = vfAnd(skip[i], !nl[i-1])
+	}
+	// parity of regional indicators along the effective sequence (removed characters carry it through)
+	riOdd := make([]bool, n)
+	for j := 0; j < n; j++ {
+		prev := false
+		if j > 0 {
+			prev = riOdd[j-1]
+		}
+		riOdd[j] = vfOr(vfAnd(removed[j], prev), vfAnd(!removed[j], vfAnd(isC(j, ri), !prev)))
+	}
+	out := make([]bool, n+1)
+	out[0], out[n] = true, true
+	for i := 1; i < n; i++ {
+		// effective neighbours, as branch-free selections over the (tiny) text:
+		// sel1[j]: j is the nearest non-removed character left of the boundary; sel2[j]: the second nearest;
+		// selR[j]: the nearest non-removed character right of position i
+		sel1 := make([]bool, n)
+		sel2 := make([]bool, n)
+		selR := make([]bool, n)
+		for j := 0; j < i; j++ {
+			allRemoved := true // characters strictly between j and i
+			oneKept := false   // exactly one of them is kept
+			for k := j + 1; k < i; k++ {
+				oneKept = vfOr(vfAnd(oneKept, removed[k]), vfAnd(allRemoved, !removed[k]))
+				allRemoved = vfAnd(allRemoved, removed[k])
+			}
+			sel1[j] = vfAnd(!removed[j], allRemoved)
+			sel2[j] = vfAnd(!removed[j], oneKept)
+		}
+		for j := i + 1; j < n; j++ {
+			allRemoved := true
+			for k := i + 1; k < j; k++ {
+				allRemoved = vfAnd(allRemoved, removed[k])
+			}
+			selR[j] = vfAnd(!removed[j], allRemoved)
+		}
+		pick := func(sel []bool, cs ...*ucdTable) bool {
+			r := false
+			for j := range sel {
+				if j != i {
+					r = vfOr(r, vfAnd(sel[j], any(j, cs...)))
+				}
+			}
+			return r
+		}
+		l1 := func(cs ...*ucdTable) bool { return pick(sel1, cs...) }
+		l2 := func(cs ...*ucdTable) bool { return pick(sel2, cs...) }
+		r1 := func(cs ...*ucdTable) bool { return pick(selR, cs...) }
+		r0 := func(cs ...*ucdTable) bool { return any(i, cs...) }
+		l1RiOdd := false
+		for j := 0; j < i; j++ {
+			l1RiOdd = vfOr(l1RiOdd, vfAnd(sel1[j], riOdd[j]))
+		}
+
+		wb3 := vfAnd(text[i-1] == 0x0D, text[i] == 0x0A)
+		wb3ab := vfOr(nl[i-1], nl[i])
+		wb3c := vfAnd(text[i-1] == 0x200D, vfIsPic(text[i]))
+		wb3d := vfAnd(isC(i-1, ucd.WordBreakWSegSpace), isC(i, ucd.WordBreakWSegSpace))
+		wb4 := skip[i]
+		wb5 := vfAnd(l1(ahl...), r0(ahl...))
+		wb6 := vfAnd(l1(ahl...), vfAnd(r0(mid...), r1(ahl...)))
+		wb7 := vfAnd(l2(ahl...), vfAnd(l1(mid...), r0(ahl...)))
+		wb7a := vfAnd(l1(heb), r0(sq))
+		wb7b := vfAnd(l1(heb), vfAnd(r0(dq), r1(heb)))
+		wb7c := vfAnd(l2(heb), vfAnd(l1(dq), r0(heb)))
+		wb8to10 := vfOr(vfAnd(l1(num), r0(num)), vfOr(vfAnd(l1(ahl...), r0(num)), vfAnd(l1(num), r0(ahl...))))
+		wb11 := vfAnd(l2(num), vfAnd(l1(midN...), r0(num)))
+		wb12 := vfAnd(l1(num), vfAnd(r0(midN...), r1(num)))
+		wb13 := vfAnd(l1(kat), r0(kat))
+		wb13a := vfAnd(vfOr(l1(lettersNumKat...), l1(enl)), r0(enl))
+		wb13b := vfAnd(l1(enl), r0(lettersNumKat...))
+		wb1516 := vfAnd(vfAnd(l1(ri), r0(ri)), l1RiOdd)
+		noBreak := vfOr(vfOr(vfOr(wb3c, wb3d), vfOr(wb4, wb5)), vfOr(vfOr(vfOr(wb6, wb7), vfOr(wb7a, wb7b)), vfOr(vfOr(vfOr(wb7c, wb8to10), vfOr(wb11, wb12)), vfOr(vfOr(wb13, wb13a), vfOr(wb13b, wb1516)))))
+		out[i] = vfAnd(!wb3, vfOr(wb3ab, !noBreak))
+	}
+	return out
+}
+
+// H-C06-word: the real Segmenter.Init against the UAX #29 word-boundary reference on every sequence of
+// word-rule representatives of the bounded length.
+func VfH_C06_word() {
+	max := 3
+	if vfThorough() {
+		max = 4
+	}
+	reps := vfWordReps()
+	n := 1 + vfChoice("textLen", max)
+	text := make([]rune, n)
+	for i := range text {
+		text[i] = reps[vfInt("wordRep", 0, len(reps)-1)]
+	}
+	var seg Segmenter
+	seg.Init(text)
+	want := vfWordRef(text)
+	for i := 0; i <= n; i++ {
+		vfAssert((seg.attributes[i]&wordBoundary != 0) == want[i], "word boundary differs from UAX #29 (WB rules)")
+	}
+	vfCover("inner-nobreak", n >= 2 && !want[1])
+	vfCover("inner-break", n >= 2 && want[1])
+	vfReach("end")
+}
+
+// ---- H-C06-grapheme-long: grapheme rules on longer sequences over the grapheme-rule representatives
+// (grapheme class x Extended_Pictographic), as H-C06-word does for the word rules.
+type vfGraphemeKey struct {
+	class *ucdTable
+	pic   bool
+}
+
+func vfGraphemeReps() []rune {
+	seen := map[vfGraphemeKey]bool{}
+	var out []rune
+	for _, r := range vfReps {
+		k := vfGraphemeKey{ucd.LookupGraphemeBreakClass(r), vfIsPic(r)}
+		if !seen[k] {
+			seen[k] = true
+			out = append(out, r)
+		}
+	}
+	return out
+}
+
+func VfH_C06_grapheme_long() {
+	max := 3
+	if vfThorough() {
+		max = 4
+	}
+	reps := vfGraphemeReps()
+	n := 1 + vfChoice("textLen", max)
+	text := make([]rune, n)
+	for i := range text {
+		text[i] = reps[vfInt("graphemeRep", 0, len(reps)-1)]
+	}
+	var seg Segmenter
+	seg.Init(text)
+	want := vfGraphemeRef(text)
+	for i := 0; i <= n; i++ {
+		vfAssert((seg.attributes[i]&graphemeBoundary != 0) == want[i], "grapheme boundary differs from UAX #29 (GB rules)")
+	}
+	vfCover("inner-nobreak", n >= 2 && !want[1])
+	vfCover("inner-break", n >= 2 && want[1])
+	vfReach("end")
+}
